@@ -1703,4 +1703,7 @@ mod tests {
 // proof harnesses for this module in from the directory named by
 // DATAFUSION_VERIF_DIR so that they can reach private items.
 #[cfg(kani)]
-include!(concat!(env!("DATAFUSION_VERIF_DIR"), "/kani/expr_common/casts.rs"));
+include!(concat!(
+    env!("DATAFUSION_VERIF_DIR"),
+    "/kani/expr_common/casts.rs"
+));
